@@ -1,2 +1,3 @@
+pub mod codec;
 pub mod core;
 pub mod synctest;
